@@ -20,7 +20,16 @@ same `xform`, `warnings` and `itemsets` as the dict rendering; a path additional
 default form id = file stem (reference: dict + fallback_form_name=stem, plus a direct check of the
 XForm's instance id).  Empty-run shapes: trailing empty rows/columns of any length and interior runs
 of <= 60 empty rows / <= 20 empty columns must not change the result; for longer interior runs the
-property demands nothing about the content, only that the channels agree with each other.
+property demands nothing about the content, only that the channels agree with each other.  Within the
+limits the same empty header cells / empty rows are also rendered as Markdown and CSV text.
+
+"A binary stream" is quantified over the *state* of the stream object as well (stream_deliveries /
+check_streams): a BytesIO holds the workbook whatever its cursor position (just written and not
+rewound, partly read by the caller, at or beyond the end) and however often the same object has
+already been converted (with the same, another, no or a wrong file_type); other binary streams are
+delivered at their start only (fresh, or rewound by the caller between conversions) but in every
+class: buffered, raw, read-write, temporary, spooled, wrapping another stream, not seekable.  The
+exhaustive product runs on the c12-streams family and on the xls fixtures, a sample on every form.
 
 Nothing here calls a pyxform reader to compute an expectation: expectations come from the abstract
 content (dict rendering) and from independent xlrd / openpyxl / csv / Markdown readings of fixtures.
@@ -160,6 +169,10 @@ def typed_value(text: str, mode: str, rnd: random.Random, header=False):
     """A spreadsheet cell value whose canonical reading (canon_text) is `text`."""
     if mode == "mixed":
         mode = rnd.choice(_MIXABLE)
+    if mode == "natural" and not header:
+        # what a spreadsheet application makes of typed-in text: every cell gets its own natural type
+        # (so one column can hold boolean, integer and decimal cells next to each other)
+        mode = "bool" if text in ("TRUE", "FALSE") else "int" if _INT.match(text) else "decimal"
     if header:
         # header cells: padding only; nbsp inside a header is its own mode (own key)
         mode = {"header-nbsp-inside": "nbsp-inside"}.get(mode, mode if mode.startswith("pad-") else "plain")
@@ -430,6 +443,207 @@ def check_rendering(fmt_label, fmt, data, wb, ctx, stem, sample=None, rnd=None, 
     return out
 
 
+# ----------------------------------------------------------------------------- stream objects: state, reuse, class
+#
+# "Delivered as ... a binary stream": the quantifier element BytesIO / open binary file is not one
+# object state.  A BytesIO is an in-memory buffer *holding* the workbook; where its cursor happens to be
+# (just written and not rewound, sniffed by the caller, already converted once, ...) is not part of the
+# workbook content, so every such delivery must convert like the dict rendering - including each of
+# several conversions of one and the same object.  For other binary streams only states whose content
+# is unambiguous are used: positioned at the start (fresh, or rewound by the caller before every
+# delivery), whatever the class of the stream (buffered / raw / read-write / spooled / wrapping
+# another stream / not seekable).  Nothing is demanded of a non-BytesIO stream that is not at its start.
+
+
+class _Buf(io.BytesIO):
+    """A BytesIO by inheritance (uploaded-file wrappers of web frameworks look like this)."""
+
+
+class _OneWay(io.RawIOBase):
+    """A readable binary stream that cannot seek (pipe / socket / stdin like)."""
+
+    def __init__(self, data: bytes):
+        self._src = io.BytesIO(data)
+
+    def readable(self):
+        return True
+
+    def seekable(self):
+        return False
+
+    def readinto(self, b):
+        return self._src.readinto(b)
+
+
+def _wrong_type(fmt):
+    return {"md": ".xlsx", "csv": ".xls", "xlsx": ".csv", "xls": ".md"}[fmt]
+
+
+def stream_deliveries(fmt: str, data: bytes, tmp: Tmp):
+    """[(label, class, run)] - run() returns [(step label, file_type, result)], each result of which
+    must equal the reference.  class: 'position' (BytesIO cursor not at 0), 'reuse' (one object delivered more than
+    once), 'kind' (other stream classes, at their start)."""
+    exts = [".xlsx", ".xlsm"] if fmt == "xlsx" else ["." + fmt]
+    n = len(data)
+    out = []
+
+    # -- BytesIO holding the content, cursor anywhere
+    def written(cls=io.BytesIO, chunks=1):
+        b = cls()
+        step = max(1, -(-n // chunks))
+        for i in range(0, n, step):
+            b.write(data[i:i + step])
+        return b
+
+    def after(op):
+        def make():
+            b = io.BytesIO(data)
+            op(b)
+            return b
+        return make
+
+    states = [
+        ("BytesIO just written, not rewound", written),
+        ("BytesIO written in 3 chunks, not rewound", lambda: written(chunks=3)),
+        ("BytesIO subclass just written, not rewound", lambda: written(cls=_Buf)),
+        ("BytesIO after the caller read 4 bytes", after(lambda b: b.read(4))),
+        ("BytesIO after the caller read one line", after(lambda b: b.readline())),
+        ("BytesIO after the caller read it to the end", after(lambda b: b.read())),
+        ("BytesIO at seek(1)", after(lambda b: b.seek(1))),
+        (f"BytesIO at seek({n // 2}) of {n}", after(lambda b: b.seek(n // 2))),
+        (f"BytesIO at seek({n - 1}) of {n}", after(lambda b: b.seek(max(0, n - 1)))),
+        ("BytesIO at seek(0, SEEK_END)", after(lambda b: b.seek(0, os.SEEK_END))),
+        ("BytesIO at a position beyond its end", after(lambda b: b.seek(n + 7))),
+    ]
+
+    def once(make, ft):
+        return lambda: [("", ft, conv(make(), file_type=ft))]
+
+    for label, make in states:
+        for ft in (None, *exts):
+            out.append((f"{fmt} as {label}, file_type={ft!r}", "position", once(make, ft)))
+
+    # -- one object delivered several times
+    def again(make, fts, rewind=False):
+        def run():
+            obj, res = make(), []
+            if not isinstance(obj, io.IOBase):
+                return res  # this interpreter's class is not a binary stream in the io sense: nothing to check
+            try:
+                for i, ft in enumerate(fts):
+                    if rewind:
+                        try:
+                            obj.seek(0)
+                        except Exception as e:  # noqa: BLE001
+                            res.append((f"delivery {i + 1}", ft, {"ok": False, "etype": type(e).__name__, "own": False,
+                                                               "msg": f"stream unusable after the previous conversion: {e}"}))
+                            break
+                    step = f"delivery {i + 1} of the same object (file_type={ft!r})" if len(fts) > 1 else ""
+                    res.append((step, ft, conv(obj, file_type=ft)))
+            finally:
+                try:
+                    obj.close()
+                except Exception:  # noqa: BLE001
+                    pass
+            return res
+        return run
+
+    def conv_wrong_then(make, fts):
+        # first delivery names a type the data is not (its outcome is not compared), then the real one
+        def run():
+            obj = make()
+            conv(obj, file_type=_wrong_type(fmt))
+            return [(f"delivery {i + 2} of the same object (file_type={ft!r}) after one with file_type="
+                     f"{_wrong_type(fmt)!r}", ft, conv(obj, file_type=ft)) for i, ft in enumerate(fts)]
+        return run
+
+    e0, e1 = exts[0], exts[-1]
+    fresh = lambda: io.BytesIO(data)  # noqa: E731
+    for fts in ((None, None), (e0, e1), (None, e0), (e0, None), (e0, e0, None, None)):
+        out.append((f"{fmt} as one BytesIO converted {len(fts)} times, file_type={fts!r}", "reuse", again(fresh, fts)))
+    out.append((f"{fmt} as one just-written BytesIO converted twice", "reuse", again(written, (None, e0))))
+    out.append((f"{fmt} as one BytesIO, retried after a wrong file_type", "reuse", conv_wrong_then(fresh, (None, e0))))
+
+    def opened(mode="rb", **kw):
+        def make():
+            p = tmp.write("upload.bin", data)
+            return open(p, mode, **kw)
+        return make
+
+    for fts in ((e0, None), (None, e1, e0)):
+        out.append((f"{fmt} as one open binary file, rewound by the caller before each of {len(fts)} conversions, "
+                    f"file_type={fts!r}", "reuse", again(opened(), fts, rewind=True)))
+
+    # -- other classes of binary stream, positioned at their start
+    def rw_file():
+        p = tmp.write("upload.bin", b"")
+        f = open(p, "w+b")
+        f.write(data)
+        f.seek(0)
+        return f
+
+    def spooled(max_size):
+        def make():
+            f = tempfile.SpooledTemporaryFile(max_size=max_size, dir=tmp.root)
+            f.write(data)
+            f.seek(0)
+            return f
+        return make
+
+    def tmpfile():
+        f = tempfile.TemporaryFile(dir=tmp.root)
+        f.write(data)
+        f.seek(0)
+        return f
+
+    kinds = [
+        ("unbuffered (raw) binary file", opened(buffering=0)),
+        ("read-write binary file written then rewound", rw_file),
+        ("TemporaryFile written then rewound", tmpfile),
+        ("BufferedReader over a BytesIO", lambda: io.BufferedReader(io.BytesIO(data))),
+        ("non-seekable buffered binary stream", lambda: io.BufferedReader(_OneWay(data))),
+        ("SpooledTemporaryFile in memory, rewound", spooled(n + 1000)),
+        ("SpooledTemporaryFile rolled to disk, rewound", spooled(16)),
+    ]
+    for label, make in kinds:
+        for ft in (None, e0):
+            out.append((f"{fmt} as {label}, file_type={ft!r}", "kind", again(make, (ft,))))
+    return out
+
+
+def check_streams(fmt, data, wb, ctx, k=None, rnd=None, ref=None, note=""):
+    """The stateful stream deliveries of one rendering (all, or `k` of them drawn with `rnd`)
+    against the dict reference (no path involved: no default form id)."""
+    tmp = _tmp(ctx)
+    dl = stream_deliveries(fmt, data, tmp)
+    if k is not None and k < len(dl):
+        dl = rnd.sample(dl, k)
+    out, seen = [], set()
+    for label, cls, run in dl:
+        for step, ft, got in run():
+            ctx["c12_n"] = ctx.get("c12_n", 0) + 1
+            if ref is None:
+                ref = conv(wb_dict(wb))
+            aspect = differ(ref, got)
+            if aspect is None:
+                continue
+            key = f"C12:{fmt}:stream-{cls}:{aspect}"
+            if key in seen:
+                continue
+            # control: the same bytes as a fresh BytesIO, converted once with the same file_type.  When
+            # that differs from the reference too, the rendering or the type detection is at fault
+            # (reported by check_rendering), not the state / reuse / class of the stream object.
+            ctl = conv(io.BytesIO(data), file_type=ft)
+            if differ(ref, ctl) == aspect:
+                continue
+            seen.add(key)
+            out.append({"key": key, "what": f"{note}{label}{': ' + step if step else ''} differs from the dict rendering "
+                                            f"of the same content in {aspect} (a fresh BytesIO of the same bytes "
+                                            f"does not): {describe(aspect, ref, got)}"})
+    tmp.clean()
+    return out
+
+
 # ----------------------------------------------------------------------------- documented defects (labelling only)
 
 
@@ -565,6 +779,8 @@ def check(case: Case, res, ctx):
     shape = getattr(case, "c12_shape", None)
     if shape:
         return check_shape(case, canon_wb(case.wb), shape, ctx, rnd)
+    if "c12-streams" in case.tags:
+        return check_stream_case(case, ctx)
     if case.wb is not None:
         raw = case.wb
     else:
@@ -594,19 +810,38 @@ def check(case: Case, res, ctx):
             vs.append((v, case.md.encode("utf-8")))
     half = "c12-half" in case.tags
     n = None if full else (6 if half else 1)
+    # stream objects in other states than "fresh, used once" (own random stream: the sampling of the
+    # plain deliveries above is not disturbed).  Every form gets some; the exhaustive product is the
+    # c12-streams family.
+    rnd_s = random.Random(zlib.crc32(("streams:" + case.name).encode()) ^ ctx.get("seed", 0))
+    quick = ctx.get("tier", "quick") == "quick"
+    k_s = (2 if quick else 6) if full else (2 if half else 1)
+
+    def streams(fmt, data):
+        if not (full or half) and quick and rnd_s.random() >= 0.15:
+            return
+        if None not in refs:
+            refs[None] = conv(wb_dict(plain))
+        out.extend(check_streams(fmt, data, plain, ctx, k_s, rnd_s, refs[None]))
+
     if corpus.md_safe(plain) and "no-md" not in spec:
         data = corpus.wb_to_md(plain).encode("utf-8")
         for v in check_rendering("md", "md", data, plain, ctx, stem, n, rnd, refs):
             vs.append((v, data))
+        streams("md", data)
     if csv_ok(plain) and "no-csv" not in spec:
         data = corpus.wb_to_csv(plain).encode("utf-8")
         for v in check_rendering("csv", "csv", data, plain, ctx, stem, n, rnd, refs):
             vs.append((v, data))
+        streams("csv", data)
     if xlsx_ok(plain):
         data = wb_xlsx(plain)
         for v in check_rendering("xlsx", "xlsx", data, plain, ctx, stem, n, rnd, refs):
             vs.append((v, data))
+        streams("xlsx", data)
         modes = TYPING_MODES[1:] if full else rnd.sample(TYPING_MODES[1:], 3 if half else 1)
+        if full:
+            modes = [*modes, "natural"]
         for mode in modes:
             for rep in range(3 if (full and mode == "mixed") else 1):
                 data = wb_xlsx(plain, mode=mode, rnd=random.Random(rnd.random()))
@@ -616,6 +851,20 @@ def check(case: Case, res, ctx):
     for v, data in vs:
         v = relabel(v, plain, data, ctx, stem)
         out.append({"key": v["key"], "what": v["what"]})
+    return out
+
+
+def check_stream_case(case, ctx):
+    """c12-streams family: every stateful stream delivery of every rendering of the content."""
+    wb = strip_trailing(canon_wb(case.wb))
+    ref = conv(wb_dict(wb))
+    out = []
+    if corpus.md_safe(wb):
+        out += check_streams("md", corpus.wb_to_md(wb).encode("utf-8"), wb, ctx, ref=ref)
+    if csv_ok(wb):
+        out += check_streams("csv", corpus.wb_to_csv(wb).encode("utf-8"), wb, ctx, ref=ref)
+    if xlsx_ok(wb):
+        out += check_streams("xlsx", wb_xlsx(wb), wb, ctx, ref=ref)
     return out
 
 
@@ -663,6 +912,22 @@ def check_shape(case, wb, shape, ctx, rnd):
     `wb` is the content *with* the empty runs; `ref` the content the property says it equals."""
     out = []
     refwb = shape["ref"]
+    if shape["demand"] and not shape.get("far"):
+        # "never truncate a sheet" is not a statement about spreadsheets only: the same table with
+        # the same empty header cells / empty rows as Markdown and CSV text
+        ref0 = conv(wb_dict(refwb))
+        texts = []
+        if corpus.md_safe(wb):
+            texts.append(("md", corpus.wb_to_md(wb)))
+        if csv_ok(strip_trailing(wb)):
+            texts.append(("csv", corpus.wb_to_csv(wb)))
+        for fmt, text in texts:
+            got = conv(text, file_type="." + fmt)
+            ctx["c12_n"] = ctx.get("c12_n", 0) + 1
+            aspect = differ(ref0, got)
+            if aspect:
+                out.append({"key": f"C12:{fmt}-{shape['class']}:{aspect}",
+                            "what": f"{shape['descr']} ({fmt} text, file_type given): {describe(aspect, ref0, got)}"})
     for empty in shape["empties"]:
         for mode in shape.get("modes", ["plain"]):
             data = wb_xlsx(wb, mode=mode, rnd=random.Random(7), empty=empty, far_cell=shape.get("far"))
@@ -768,6 +1033,21 @@ def base_forms() -> dict[str, WB]:
             ["wards", "211", "Ward 2.5", "2", "21"],
         ]),
         "settings": (["form_id"], [["ext_form"]]),
+    })
+    # booleans and numbers of equal value (TRUE/1, FALSE/0) side by side in one column, either first
+    forms["bool_beside_number"] = WB({
+        "survey": (["type", "name", "label", "default", "required"], [
+            ["select_one tf", "agree", "Do you agree", "TRUE", "TRUE"],
+            ["select_one stars", "rating", "Stars", "1", "FALSE"],
+            ["integer", "zero", "Count", "0", None],
+            ["select_one tf", "again", "Still", "FALSE", "TRUE"],
+            ["decimal", "one", "Factor", "1.5", None],
+        ]),
+        "choices": (["list_name", "name", "label", "weight"], [
+            ["tf", "TRUE", "Yes", "1"], ["tf", "FALSE", "No", "0"],
+            ["stars", "0", "None", "FALSE"], ["stars", "1", "One", "TRUE"], ["stars", "2", "Two", "2.5"],
+        ]),
+        "settings": (["form_id"], [["tf_num"]]),
     })
     forms["no_settings_warn"] = WB({
         "survey": (["type", "name", "label", "hint"], [
@@ -898,8 +1178,19 @@ def shape_cases(tier) -> list[Case]:
     return out
 
 
+def stream_cases(tier) -> list[Case]:
+    """Contents for the exhaustive stream state / reuse / class product: settings + several sheets,
+    warnings + default form id, itemsets; thorough adds texts that matter for format sniffing."""
+    forms = {**base_forms(), **punctuation_forms(), **sheet_forms()}
+    names = ["lang_media", "external"]
+    if tier == "thorough":
+        names += ["typed", "entities", "punct_commas4", "punct_commas_many", "punct_pipes4", "punct_pipes_many", "punct_both",
+                  "punct_choices", "sheets_extra", "sheets_case", "sheets_misspelt"]
+    return [Case("streams_" + n, wb=forms[n], origin="C12-streams", tags={"c12-streams"}) for n in names]
+
+
 def cases(tier: str, seed: int) -> list[Case]:
-    out = []
+    out = stream_cases(tier)
     for fam in (base_forms(), punctuation_forms(), sheet_forms()):
         for name, wb in fam.items():
             out.append(_full(name, wb))
@@ -1076,6 +1367,7 @@ def check_global(tier, seed, ctx):
             continue
         contents[p] = wb
     quick_limit = 400 if tier == "quick" else 10 ** 9
+    rnd_s = random.Random(seed + 1212)
     for p, wb in contents.items():
         ext = os.path.splitext(p)[1]
         fmt = ext[1:]
@@ -1095,6 +1387,13 @@ def check_global(tier, seed, ctx):
             if key not in seen:
                 seen.add(key)
                 out.append({"key": key, "what": v["what"], "case": os.path.relpath(p, corpus.REPO)})
+        # stateful stream deliveries of the fixture's bytes (xls exists as fixtures only: more of them)
+        if not reported:
+            for v in check_streams(fmt, data, wb, ctx, (4 if tier == "quick" else 24) if fmt == "xls" else 1, rnd_s,
+                                   note=f"fixture {os.path.relpath(p, corpus.REPO)} vs independent reading: "):
+                if v["key"] not in seen:
+                    seen.add(v["key"])
+                    out.append({"key": v["key"], "what": v["what"], "case": os.path.relpath(p, corpus.REPO)})
         # the file at its original path as well (stem of the real file)
         ref = conv(wb_dict(wb, stem))
         got = conv(p)
